@@ -24,6 +24,7 @@ ASSUMPTIONS = ['ref_continuify in this file is the set-based reading of '
                '(label, block yield), with multiplicities for identical '
                'unary chains']
 WATCHDOG = {'quick': 600, 'thorough': 3600}
+LONG_SENTENCES = 3      # floor for the stratum the runner adds (gen.maybe_long)
 MIN = {'quick': {'distinct': 1000,
                  'hooks': {'transform.boyd_split': 3000,
                            'transform.raising': 3000},
@@ -328,6 +329,7 @@ def shard(ctx):
         rng = ctx.rng('rand', i)
         n = rng.choice([4, 5, 6, 8, 10, 14]) if rng.random() < 0.7 \
             else rng.randint(2, 40)
+        n = gen.maybe_long(rng, n, 0.002)
         spec = gen.tree(rng, n, pools, max_arity=rng.choice([2, 3, 4, 6]),
                         p_unary=rng.choice([0, 0.1, 0.25]),
                         moves=rng.choice([0, 1, 1, 2, 3, 5, 8]),
